@@ -61,10 +61,12 @@ def coset_min(Hs, s, w):
     return best
 
 
-def native_optimal(cname, size, direction, defo, p, rnd, ntrials):
+def native_optimal(cname, size, direction, defo, p, rnd, ntrials, nkw=None):
     code = BC.make(cname, size)
-    dec, em = BD.build('MatchingDecoder', code, direction=direction, p=p, noise_deformation=defo)
-    wx, wz = em.get_weights(code, p)
+    dec, em = BD.build('MatchingDecoder', code, direction=direction, p=p, noise_deformation=defo, noise_kwargs=nkw)
+    # reference weights from the marginals of the probability tables (independent of get_weights)
+    pi_, px_, py_, pz_ = em.probability_distribution(code, p)
+    wx = -np.log((px_ + py_ + 1e-20) / (1 - px_ - py_ + 1e-20)); wz = -np.log((pz_ + py_ + 1e-20) / (1 - pz_ - py_ + 1e-20))
     n = code.n
     Hz, Hx = code.Hz.toarray(), code.Hx.toarray()
     if min(wx.min(), wz.min()) < 0:
@@ -128,11 +130,12 @@ def bounded(tier, seed):
     lattices = [('Toric2DCode', (2, 2)), ('Toric2DCode', (2, 3)), ('Planar2DCode', (2, 3)), ('Planar2DCode', (3, 3)), ('RotatedPlanar2DCode', (3, 3)), ('RotatedPlanar2DCode', (4, 3))]
     if tier != 'quick':
         lattices += [('Toric2DCode', (3, 3)), ('Planar2DCode', (3, 4)), ('RotatedPlanar2DCode', (4, 4))]
-    noises = [((1 / 3, 1 / 3, 1 / 3), None), ((0.7, 0.1, 0.2), None), ((0.05, 0.05, 0.9), None), ((0.2, 0.1, 0.7), 'XZZX'), ((0.8, 0.1, 0.1), 'XY')]
+    noises = [((1 / 3, 1 / 3, 1 / 3), None, None), ((0.7, 0.1, 0.2), None, None), ((0.05, 0.05, 0.9), None, None), ((0.2, 0.1, 0.7), 'XZZX', None), ((0.2, 0.1, 0.7), 'XZZX', {'deformation_axis': 'x'}),
+              ((0.20001, 0.1, 0.69999), 'XZZX', {'deformation_axis': 'x'}), ((0.8, 0.1, 0.1), 'XY', None)]
     for cname, size in lattices:
-        for direction, defo in noises:
+        for direction, defo, nkw in noises:
             for p in ((0.1, 0.3) if tier == 'quick' else (0.05, 0.1, 0.2, 0.3)):
-                why = native_optimal(cname, size, direction, defo, p, rnd, 6 if tier == 'quick' else 25)
+                why = native_optimal(cname, size, direction, defo, p, rnd, 6 if tier == 'quick' else 25, nkw)
                 ev += 1; nt.add((cname, size, direction, defo, p))
                 if len(samples) < 3 and defo:
                     samples.append(dict(code=cname, size=size, direction=direction, noise_deformation=defo, p=p, ok=why is None))
@@ -161,5 +164,5 @@ def bounded(tier, seed):
     for v in viol:
         if v['obligation'] not in seen:
             seen.add(v['obligation']); out.append(v)
-    return dict(bound='optimality vs full coset: %d lattices (<= 16 qubits per sector) x 5 noise models x 2-4 rates; all errors of weight <= floor((d-1)/2) on the listed lattices (matching up to 5x5, union-find toric L>=3); all single-qubit errors for sweep-match on 3x3x3 (thorough: up to %d)' % (len(lattices), 3 if tier == 'quick' else 5),
+    return dict(bound='optimality vs full coset: %d lattices (<= 16 qubits per sector) x 7 noise models (incl. models differing only in deformation axis / 5th decimal, built in sequence) x 2-4 rates; all errors of weight <= floor((d-1)/2) on the listed lattices (matching up to 5x5, union-find toric L>=3); all single-qubit errors for sweep-match on 3x3x3 (thorough: up to %d)' % (len(lattices), 3 if tier == 'quick' else 5),
                 evaluations=ev, distinct_nontrivial=len(nt), rule='real decoders; optimum by exhaustive enumeration of the solution coset; correctable sets exhaustively', samples=samples[:5], violations=out)
